@@ -11,6 +11,7 @@ import (
 	"golang.org/x/tools/go/ssa"
 
 	"manticheck/internal/codec"
+	"manticheck/internal/lin"
 	"manticheck/internal/load"
 	"manticheck/internal/prove"
 )
@@ -86,6 +87,13 @@ func runC05(c *Ctx) {
 				}
 				if why, ex := orderExempt[fname]; ex {
 					r.OK("order", construct, pos, "exempt: "+why)
+					continue
+				}
+				if rel == smbPrefix+"/spnego" {
+					// GSS-API / SPNEGO framing is ASN.1 DER: lengths are big-endian by definition
+					// (ITU-T X.690 §8.1.3); these bytes are not MS-CIFS fields. The NTLM messages
+					// inside (package spnego/ntlm) are little-endian and are NOT exempt.
+					r.OK("order", construct, pos, "exempt: ASN.1 DER framing (big-endian by X.690), not an MS-CIFS field")
 					continue
 				}
 				r.Fail("order", construct, pos, "big-endian accessor in an SMB1 codec (MS-CIFS: multi-byte fields are little-endian)")
@@ -269,6 +277,7 @@ func c05WordPack(c *Ctx, w *prove.World) {
 	// AddWordsFromBytesStream: word = uint16(b[i])<<8 | uint16(b[i+1])
 	if fn := p.Func(rel, "Parameters", "AddWordsFromBytesStream"); fn != nil {
 		found := false
+		sawPack := false
 		for _, b := range fn.Blocks {
 			for _, in := range b.Instrs {
 				bo, isB := in.(*ssa.BinOp)
@@ -284,16 +293,27 @@ func c05WordPack(c *Ctx, w *prove.World) {
 					i1 := indexOf(sh.X)
 					i2 := indexOf(bo.Y)
 					if i1 != nil && i2 != nil {
+						sawPack = true
 						if add, isAdd := i2.(*ssa.BinOp); isAdd && add.Op == token.ADD && add.X == i1 {
 							found = true
+						} else {
+							// any spelling of "the next byte": i2 == i1 + 1 proved in place (2i / 2i+1, i / i+1 …)
+							cx := w.Info(fn).CtxBefore(bo)
+							a, b2 := cx.Lin(i1).AddK(1), cx.Lin(i2)
+							if cx.Prove(lin.GE(a, b2)) && cx.Prove(lin.LE(a, b2)) {
+								found = true
+							}
 						}
 					}
 				}
 			}
 		}
-		if !found {
+		if !found && sawPack {
 			ok = false
 			why = append(why, "AddWordsFromBytesStream does not pack b[i]<<8 | b[i+1]")
+		} else if !found {
+			c.NotDecided("wordpack", "Parameters word packing", "", "AddWordsFromBytesStream does not build its words as (byte << 8) | byte: packing shape outside this rule's method")
+			return
 		}
 	} else {
 		ok = false
@@ -373,6 +393,10 @@ func c05AndX(c *Ctx, w *prove.World) {
 
 func checkAndXLayout(c *Ctx, key, pos string, as []codec.Atom, want []string) {
 	r := c.R
+	if why := untraced(as, strings.HasSuffix(key, "Marshal")); why != "" {
+		c.NotDecided("andx", key, pos, why)
+		return
+	}
 	var got []string
 	for _, a := range as {
 		got = append(got, strings.TrimSuffix(strings.TrimSuffix(atomSig(a), "LE"), "BE"))
@@ -411,7 +435,17 @@ func c05Dialects(c *Ctx, w *prove.World) {
 			ok = true
 		}
 	}
-	if ok {
+	if !ok && len(enc) == 3 {
+		// the same three atoms emitted per iteration into a bytes.Buffer / pre-sized buffer
+		// (not folded into a repeat): all three sit inside the loop over Dialects
+		b := enc
+		if b[0].Kind == "const" && b[0].Expr == fmtVal && b[0].Cond && b[1].Kind == "bytes" && strings.HasPrefix(b[1].Field, "Dialects[") && b[1].Cond && b[2].Kind == "const" && b[2].Expr == "0" && b[2].Cond {
+			ok = true
+		}
+	}
+	if !ok && hasUnknown(enc) != "" {
+		c.NotDecided("dialects", "Dialects.Marshal", pos, "layout not recognised: "+hasUnknown(enc))
+	} else if ok {
 		r.OK("dialects", "Dialects.Marshal", pos, "per dialect: format byte "+fmtVal+", name, NUL")
 	} else {
 		r.Fail("dialects", "Dialects.Marshal", pos, "each dialect must carry its own 0x02 format byte and NUL terminator: "+why)
@@ -424,6 +458,31 @@ func c05Dialects(c *Ctx, w *prove.World) {
 	}
 	inLoop := false
 	found := false
+	// the per-entry check may live in a helper called from the loop (two levels)
+	if !dialectsCompareIn(un, fmtVal) {
+		for _, b := range un.Blocks {
+			for _, in := range b.Instrs {
+				ci, isCall := in.(ssa.CallInstruction)
+				if !isCall {
+					continue
+				}
+				g := ci.Common().StaticCallee()
+				if g == nil || g.Blocks == nil || g.Pkg != un.Pkg {
+					continue
+				}
+				if dialectsCompareIn(g, fmtVal) {
+					found = true
+					for _, h := range un.Blocks {
+						for _, pr := range h.Preds {
+							if h.Dominates(pr) && (h == b || h.Dominates(b)) && reachesBlock(b, pr) {
+								inLoop = true
+							}
+						}
+					}
+				}
+			}
+		}
+	}
 	for _, b := range un.Blocks {
 		for _, in := range b.Instrs {
 			bo, isB := in.(*ssa.BinOp)
@@ -565,7 +624,9 @@ func c05BufFormat(c *Ctx, w *prove.World) {
 		sort.Strings(missing)
 		sort.Strings(extra)
 		pos := p.Rel(fn.Pos())
-		if len(missing) == 0 && len(extra) == 0 {
+		if len(cases) == 0 {
+			c.NotDecided("bufformat", "SMB_STRING."+m+" cases", pos, "no comparison of BufferFormat with a constant found: the dispatch is not a switch/if over the field (table lookup?)")
+		} else if len(missing) == 0 && len(extra) == 0 {
 			r.OK("bufformat", "SMB_STRING."+m+" cases", pos, "switches over exactly the five buffer formats")
 		} else {
 			r.Fail("bufformat", "SMB_STRING."+m+" cases", pos, fmt.Sprintf("missing cases %v, cases on undeclared values %v", missing, extra))
@@ -585,4 +646,24 @@ func c05BufFormat(c *Ctx, w *prove.World) {
 			}
 		}
 	}
+}
+
+// dialectsCompareIn: fn compares a byte with the constant buffer-format value.
+func dialectsCompareIn(fn *ssa.Function, fmtVal string) bool {
+	for _, b := range fn.Blocks {
+		for _, in := range b.Instrs {
+			bo, isB := in.(*ssa.BinOp)
+			if !isB || (bo.Op != token.NEQ && bo.Op != token.EQL) {
+				continue
+			}
+			for _, side := range []ssa.Value{bo.X, bo.Y} {
+				if k, isK := side.(*ssa.Const); isK && k.Value != nil && k.Value.ExactString() == fmtVal {
+					if _, isByte := k.Type().Underlying().(*types.Basic); isByte {
+						return true
+					}
+				}
+			}
+		}
+	}
+	return false
 }
